@@ -349,6 +349,113 @@ func checkC19(c *Ctx) {
 	c19URLVerbatim(c, builders)
 	c19Suppressors(c, builders)
 	c19HeaderMerge(c)
+	c19SessionKept(c, builders)
+}
+
+// c19SessionKept (R-session-header): "once one has been issued, the session id" is carried by every request — so the
+// member the builders take the Mcp-Session-Id header from is emptied only where the server's answer said the session is
+// gone: every store of "" into it (directly, through its setter, or deferred) is control dependent on a test of an
+// HTTP response's status code.
+func c19SessionKept(c *Ctx, builders []*builder) {
+	fields := map[string]bool{}
+	for _, b := range builders {
+		if b.req == nil {
+			continue
+		}
+		reqVals := derivedReq(b.req)
+		ir.EachCall(b.fn, func(call ssa.CallInstruction) {
+			n := ir.CallName(call)
+			if n != "(net/http.Header).Set" && n != "(net/http.Header).Add" {
+				return
+			}
+			args := call.Common().Args
+			if len(args) != 3 || !headerOfReq(args[0], reqVals) {
+				return
+			}
+			if k, ok := ir.ConstStr(args[1]); !ok || !strings.EqualFold(k, "Mcp-Session-Id") {
+				return
+			}
+			if f, _, ok := ir.LoadedField(args[2]); ok {
+				fields[f.Key()] = true
+			}
+		})
+	}
+	if len(fields) == 0 {
+		c.R.Break("anchor not found: the member the builders take the Mcp-Session-Id header from")
+		return
+	}
+	// setters: library functions storing a string parameter into such a member
+	setters := map[*ssa.Function]int{}
+	for _, fn := range c.P.LibFns {
+		ir.EachInstr(fn, func(_ *ssa.BasicBlock, _ int, in ssa.Instruction) {
+			st, ok := in.(*ssa.Store)
+			if !ok {
+				return
+			}
+			fa, ok := st.Addr.(*ssa.FieldAddr)
+			if !ok {
+				return
+			}
+			if key, _, _, _ := ir.FullField(fa); !fields[key] {
+				return
+			}
+			for i, p := range fn.Params {
+				if st.Val == ssa.Value(p) {
+					setters[fn] = i
+				}
+			}
+		})
+	}
+	isEmpty := func(v ssa.Value) bool { s, ok := ir.ConstStr(v); return ok && s == "" }
+	n := 0
+	for _, fn := range c.P.LibFns {
+		if c.InitOnly()[fn] {
+			continue
+		}
+		var pd *flow.PostDom
+		cnt := 0
+		ir.EachInstr(fn, func(_ *ssa.BasicBlock, _ int, in ssa.Instruction) {
+			clear, deferred := false, false
+			switch x := in.(type) {
+			case *ssa.Store:
+				if fa, ok := x.Addr.(*ssa.FieldAddr); ok {
+					key, _, _, base := ir.FullField(fa)
+					clear = fields[key] && !ir.BaseAlloc(base) && isEmpty(x.Val)
+				}
+			case ssa.CallInstruction:
+				if sc := ir.StaticCallee(x); sc != nil {
+					if i, ok := setters[sc]; ok && i < len(x.Common().Args) && isEmpty(x.Common().Args[i]) {
+						clear = true
+						_, deferred = x.(*ssa.Defer)
+					}
+				}
+			}
+			if !clear {
+				return
+			}
+			n++
+			cnt++
+			if pd == nil {
+				pd = flow.NewPostDom(fn)
+			}
+			onStatus := false
+			for _, g := range pd.ControlDepsTransitive(in.Block()) {
+				if bin, ok := g.If.Cond.(*ssa.BinOp); ok && (fieldLoadNamed(bin.X, "StatusCode") || fieldLoadNamed(bin.Y, "StatusCode")) {
+					onStatus = true
+				}
+			}
+			how := "cleared"
+			if deferred {
+				how = "cleared by a deferred call, i.e. on every exit,"
+			}
+			c.R.Check(onStatus, "R-session-header", sprintf("session id cleared in %s#%d", fname(fn), cnt), c.Pos(in.Pos()),
+				"the clear is controlled by the status of a server answer",
+				sprintf("in %s the issued session id is %s on paths that no test of a server answer's status controls (a failed before-request function, a network error, a refused DELETE): the session lives on at the server, but every later request is sent without Mcp-Session-Id", fname(fn), how))
+		})
+	}
+	if n == 0 {
+		c.R.Hold("R-session-header", "the issued session id is never cleared", "", "")
+	}
 }
 
 // c19Suppressors: a boolean field that suppresses the session header (it is read in the guard of a
@@ -757,10 +864,25 @@ func checkHook(c *Ctx, b *builder, appliers map[*ssa.Function]bool, hookType *ty
 			if root := ctxRoot(ctxArg, 0); root == "background" {
 				c.R.Violate("R-before-request", bn, c.Pos(h.Pos()), sprintf("%s passes a context rooted at context.Background()/TODO() to the before-request function: the calling operation's context values are lost", bn))
 				return
+			} else if root == "field" && ownsContextParam(h.Parent()) {
+				c.R.Violate("R-before-request", bn, c.Pos(h.Pos()), sprintf("%s is called with the operation's context but hands the before-request function a context kept in the transport: the function sees the values of whichever earlier operation stored it, not those of the calling one", bn))
+				return
 			}
 		}
 	}
 	c.R.Hold("R-before-request", bn, c.Pos(hooks[0].Pos()), "hook applied exactly once on every path to the dispatch, error edge cut, context derived from the builder's context")
+}
+
+// ownsContextParam: the function (or, for a closure, the function it is declared in) receives a context.Context.
+func ownsContextParam(fn *ssa.Function) bool {
+	for f := fn; f != nil; f = f.Parent() {
+		for _, p := range f.Params {
+			if ir.TypeStr(p.Type()) == "context.Context" {
+				return true
+			}
+		}
+	}
+	return false
 }
 
 func hookCtxArg(h *ssa.Call) ssa.Value {
